@@ -35,6 +35,7 @@ type c09Rig struct {
 	clk       int64
 	removals  [][2]int64 // logical intervals during which a removal may be in progress
 	stop      int32
+	churned   bool // the previous plan changed membership
 }
 
 func (r *c09Rig) tick() int64 { return atomic.AddInt64(&r.clk, 1) }
@@ -193,6 +194,22 @@ func (r *c09Rig) run(plan c09Plan, tag string) c09Outcome {
 	defer runtime.GOMAXPROCS(old)
 	atomic.StoreInt32(&r.stop, 0)
 	var wg, bg sync.WaitGroup
+	if r.churned {
+		// the previous plan ended by emptying the pools; those removals are
+		// asynchronous and may still be in flight under load: relaxed delivery
+		// oracle for what starts within the first 400 ms of this plan
+		s0 := r.tick()
+		bg.Add(1)
+		go func() {
+			defer bg.Done()
+			time.Sleep(400 * time.Millisecond)
+			e0 := r.tick()
+			r.mu.Lock()
+			r.removals = append(r.removals, [2]int64{s0, e0})
+			r.mu.Unlock()
+		}()
+	}
+	r.churned = plan.Churn
 	var failMu sync.Mutex
 	setFail := func(format string, a ...any) {
 		failMu.Lock()
@@ -390,7 +407,7 @@ func (r *c09Rig) run(plan c09Plan, tag string) c09Outcome {
 	for pi := range r.pools {
 		dynamicHostResolver.addressResolved(r.pools[pi], []string{}, nil)
 	}
-	time.Sleep(20 * time.Millisecond)
+	time.Sleep(100 * time.Millisecond)
 	if out.fail != "" {
 		return out
 	}
